@@ -93,7 +93,7 @@ def scorer_cases(draw, tier):
             "same_object_view": draw(st.sampled_from([False, False, True]))}
     # whole-numbered readings on a level far above their spread (ADC counts 30000 +- 2), the original handed over as integers
     level = draw(st.sampled_from([None, None, None, None, None, 30000.0, 1e6, 0.0]))
-    int_dtype = draw(st.sampled_from(["int64", "int32", "int16"]))
+    int_dtype = draw(st.sampled_from(["int64", "int32", "int16", "float32"]))  # (single precision holds these whole numbers exactly)
     if level is not None and "Gaussian" not in name and case["t"]["kind"] in ("shift", "scale"):
         X, _ = draw(D.structured_matrix(n, p, exact=True, max_shifts=2, max_spikes=1, max_bumps=1))
         case["X"] = [[max(-40.0, min(40.0, v)) + level for v in row] for row in X]
